@@ -19,6 +19,18 @@ type Int struct {
 
 	layState int8 // 0 unknown, 1 layout cached, 2 not a layout
 	lay      layout
+
+	tz uint8    // the value is known to be a multiple of 2^tz (set by left shifts)
+	wr *wrapRec // the word is d - 2^bits*n for the wrap symbol n (wrap mode)
+}
+
+// wrapRec records how a wrapped unsigned word was obtained: value = d - 2^bits*n
+// with n in {-1, 0} (an underflow count) and d ranging over dR.
+type wrapRec struct {
+	n    int
+	d    *Form
+	dR   Itv
+	bits uint
 }
 
 // F returns the affine form of the word.
